@@ -51,6 +51,12 @@ def lex(src):
                     j += 1
             i = j
             continue
+        # raw identifiers r#type
+        m = re.match(r"r#[A-Za-z_][A-Za-z0-9_]*", src[i:i + 64])
+        if m and (i == 0 or src[i - 1] not in IDENT_CONT):
+            toks.append(Tok("id", m.group(0), i, i + m.end()))
+            i += m.end()
+            continue
         # raw strings r"..", r#".."#, br#".."#
         m = re.match(r'b?r(#*)"', src[i:i + 40])
         if m:
